@@ -336,6 +336,14 @@ def run_sim_class(chk, cls, scs, mons, variant=None, batch=250, tag=None):
             sc["two_controllers"] = True       # range requests alternate between two kept CommunicationController objects
         if "cross_flags" not in sc and k % 3 == 2 and len(sc["nodes"]) > 1:
             sc["cross_flags"] = True           # what an assertion reads about a node is written by ANOTHER node's callbacks
+        if "odd_payloads" not in sc and k % 6 == 5:
+            sc["odd_payloads"] = True          # message texts with format / quote / NUL / non-BMP / lone-surrogate / glob characters
+        if "long_payloads" not in sc and k % 4 == 0:
+            sc["long_payloads"] = True         # messages of 700 characters (the message number padded with zeros)
+        if "worker_thread" not in sc and k % 7 == 2:
+            sc["worker_thread"] = True         # the simulation is built in this thread and run in another one (joined at once)
+        if "replaced_handlers" not in sc and k % 5 == 0:
+            sc["replaced_handlers"] = True     # default handlers added first, replaced by the scenario's own under the same labels
         if "poll_inside" not in sc and k % 6 == 3:
             sc["poll_inside"] = True           # is_simulation_done() asked from inside the callbacks (a read-only query)
         if "interloper" not in sc and k % 5 == 4:
@@ -405,7 +413,7 @@ def run_sim_class(chk, cls, scs, mons, variant=None, batch=250, tag=None):
 
 def _brief(sc):
     d = {k: sc[k] for k in ("handlers", "nodes", "med", "mob", "asserts", "seed", "dur", "maxit", "drv", "script")}
-    for k in ("reuse_commands", "fresh_controllers", "odd_names", "truthy_preds", "build_twice", "poll_done", "int_numbers", "enum_names", "raw_commands", "rerun", "late_config", "nodes_first", "interloper", "poll_inside", "positional_config", "two_controllers", "cross_flags", "variant", "stream"):
+    for k in ("reuse_commands", "fresh_controllers", "odd_names", "truthy_preds", "build_twice", "poll_done", "int_numbers", "enum_names", "raw_commands", "rerun", "late_config", "nodes_first", "interloper", "poll_inside", "positional_config", "two_controllers", "cross_flags", "worker_thread", "replaced_handlers", "long_payloads", "odd_payloads", "variant", "stream"):
         if k in sc:
             d[k] = sc[k]
     return d
@@ -1794,6 +1802,8 @@ def ops_candidates(case):
     if "ops" in case:
         ops = case["ops"]
         for i in range(len(ops)):
+            if isinstance(ops[i], (list, tuple)) and len(ops[i]) > 3 and str(ops[i][3]).startswith("SIMRUN"):
+                continue          # the operations that stand for one run of the hosting simulation go together
             c = dict(case)
             c["ops"] = ops[:i] + ops[i + 1:]
             yield c
@@ -1866,6 +1876,12 @@ def gen_disp_case(R, maxops=10, nested=False):
             first = [op for op in ops if op[0] != "create"]
             pre = [("disp", R.randrange(ninst), R.choice(["init", "timer", "packet", "telem"])) for _ in range(R.randint(1, 3))]
             case["ops"] = pre + [("create", i) for i in range(ninst)] + first
+        if R.random() < 0.4 and not nested:
+            # somewhere in the history the simulation is run to its end; the dispatchers are used on afterwards
+            at = R.randrange(1, len(case["ops"]) + 1)
+            run = [("disp", i, "init", "SIMRUN" if i == 0 else "SIMRUN-cont") for i in range(ninst)] + \
+                  [("disp", i, "finish", "SIMRUN-cont") for i in range(ninst)]
+            case["ops"] = case["ops"][:at] + run + case["ops"][at:]
     return case
 
 
